@@ -125,6 +125,9 @@ def check_roundtrip(fd, via='file'):
                 path = 'x.mid'
             else:
                 old_cwd = None
+                if fd['tpb'] % 2 == 0:
+                    import pathlib
+                    path = pathlib.Path(path)     # a path object instead of a string: whatever open() takes
             junk = mido.MidiFile(type=1, tracks=[mido.MidiTrack([mido.Message('note_on', time=i) for i in range(300)] +
                                                                 [mido.Message('clock')])])
             try:
@@ -136,7 +139,7 @@ def check_roundtrip(fd, via='file'):
                 with open(path, 'rb') as f:
                     b = f.read()
                 back = mido.MidiFile(path) if cs is None else mido.MidiFile(path, charset=cs)
-                if back.filename != path:
+                if os.fspath(back.filename) != os.fspath(path):
                     out.append(fail('filename-attr', f'MidiFile(filename).filename is {back.filename!r}'))
             except Exception as exc:  # noqa: BLE001
                 return [fail('save-raises', f'via filename: {exc!r}', exc=exc_sig(exc), via='filename')]
